@@ -130,6 +130,9 @@ func checkStream(c streamCase, o optSet) (string, string) {
 		return "stream-not-created", obs + " NewStream: " + so.newErr.Error()
 	}
 	wantCode, wantMsg, wantDetails := wantOf(c.Code, c.OKErr, c.Msg, c.Details)
+	if c.NMsgs > 0 && o.mayReject(respSize) && tooLarge(so.final) && so.n < c.NMsgs {
+		return "", obs + " (message larger than the caller's receive limit: not judged)"
+	}
 	if wantCode == codes.OK {
 		if so.final != io.EOF || so.n != c.NMsgs {
 			return "stream-ok-call-failed", obs
